@@ -248,6 +248,13 @@ def gen_lg_case(cuqi, rs, thorough, forced=None):
                     sp.value = (D + 1e-9 * (V - D)).tolist()
             c.prior = Spec(c.prior.param, c.prior.shape, c.prior.value, c.prior.d); c.lik = Spec(c.lik.param, c.lik.shape, c.lik.value, c.lik.d)
         c.prior = rescale(c.prior); c.lik = rescale(c.lik)
+    c.opscale = forced.get("opscale")
+    if c.opscale is not None:   # G4: operator, data and noise std live on the scale `opscale`; the unknown stays O(1)
+        c.A = c.A * c.opscale
+        c.E = par2fun_matrix(c.geom, c.nfun)
+        f2 = c.opscale ** 2
+        fl = {"cov": f2, "prec": 1.0 / f2, "sqrtcov": abs(c.opscale), "sqrtprec": 1.0 / abs(c.opscale)}[c.lik.param]
+        c.lik = Spec(c.lik.param, c.lik.shape, float(c.lik.value) * fl if c.lik.shape == "scalar" else (np.array(c.lik.value, dtype=float) * fl).tolist(), c.lik.d)
     c.compute_cov = bool(forced.get("compute_cov", rs.rand() < 0.7))
     mk = forced.get("mean", ["vector"] * 7 + ["zeros", "scalar0", "scalar"])
     if isinstance(mk, list):
@@ -264,13 +271,16 @@ def gen_lg_case(cuqi, rs, thorough, forced=None):
     if "mean_value" in forced:
         c.mean = np.array(forced["mean_value"], dtype=float)
     c.b = np.array(forced["b"], dtype=float) if "b" in forced else rs.randint(-4, 5, size=c.m).astype(float)
+    if c.opscale is not None:
+        c.b = c.b * c.opscale
+    c.buffered = bool(forced.get("buffered", c.backing == "fn" and rs.rand() < 0.3))
     return c
 
 
 def lg_desc(c):
     return {"m": c.m, "n_fun": c.nfun, "n_par": c.npar, "backing": c.backing, "geom": c.geom_label,
             "A": c.A.tolist(), "prior": [c.prior.param, c.prior.shape, c.prior.value], "lik": [c.lik.param, c.lik.shape, c.lik.value],
-            "scale": getattr(c, "scale", None), "compute_cov": c.compute_cov, "mean": (c.mean.tolist() if hasattr(c.mean, "tolist") else c.mean), "b": c.b.tolist()}
+            "scale": getattr(c, "scale", None), "opscale": getattr(c, "opscale", None), "buffered_forward": getattr(c, "buffered", False), "compute_cov": c.compute_cov, "mean": (c.mean.tolist() if hasattr(c.mean, "tolist") else c.mean), "b": c.b.tolist()}
 
 
 def lg_key(c, site="MAP"):
@@ -279,19 +289,19 @@ def lg_key(c, site="MAP"):
     lk = c.lik.label + (cc if c.lik.param != "cov" else "")
     pr = c.prior.label + (cc if c.prior.param != "cov" else "")
     mean = "" if c.mean_kind in ("vector", "zeros") else ":mean-scalar"
-    sc = "" if getattr(c, "scale", None) is None else ":scaled"
+    sc = ("" if getattr(c, "scale", None) is None else ":scaled") + ("" if getattr(c, "opscale", None) is None else ":opscaled")
     return f"{site}:direct:{c.backing}:{g}:lik={lk}:prior={pr}{mean}{sc}"
 
 
 def intify(a):
     """the same numbers with an integer dtype / python ints where all values are integral (G1), else unchanged"""
     arr = np.asarray(a, dtype=float)
-    if np.all(arr == np.round(arr)):
+    if np.all(arr == np.round(arr)) and np.all(np.abs(arr) < 1e15):   # representable without overflow
         return int(arr) if arr.ndim == 0 else arr.astype(np.int64)
     return a
 
 
-def build_lg(cuqi, c, as_int=False):
+def build_lg(cuqi, c, as_int=False, layout=False):
     from cuqi.distribution import Gaussian
     from cuqi.model import LinearModel
     from cuqi.problem import BayesianProblem
@@ -304,8 +314,38 @@ def build_lg(cuqi, c, as_int=False):
         A = intify(A); mean = intify(mean); b = intify(b)
         b = b.tolist() if isinstance(b, np.ndarray) and b.dtype.kind == "i" and len(b) % 2 == 0 else b
         pk = {k: intify(v) for k, v in pk.items()}; lk = {k: intify(v) for k, v in lk.items()}
+    if layout:   # G7: the same numbers as Fortran-ordered / transposed / strided / reversed views, read-only
+        A = np.asfortranarray(A)
+        big = np.zeros(2 * len(b)); big[::2] = b; b = big[::2]
+        if isinstance(mean, np.ndarray):
+            mean = np.ascontiguousarray(mean[::-1])[::-1]
+
+        def relay(v):
+            if isinstance(v, np.ndarray) and v.ndim == 2:
+                v = np.ascontiguousarray(v.T).T
+            elif isinstance(v, np.ndarray) and v.ndim == 1:
+                bb = np.zeros(3 * len(v)); bb[::3] = v; v = bb[::3]
+            if isinstance(v, np.ndarray):
+                v.setflags(write=False)
+            return v
+        pk = {k: relay(v) for k, v in pk.items()}; lk = {k: relay(v) for k, v in lk.items()}
+        for v in (A, big, b):
+            v.setflags(write=False)
+        if isinstance(mean, np.ndarray):
+            mean.setflags(write=False)
     if c.backing == "mb":
         M = LinearModel(A, domain_geometry=c.geom)
+    elif getattr(c, "buffered", False):   # callables that return the same array object on every call
+        fbuf, abuf = np.zeros(A.shape[0]), np.zeros(A.shape[1])
+
+        def fwd(x):
+            fbuf[...] = A @ x
+            return fbuf
+
+        def adj(y):
+            abuf[...] = A.T @ y
+            return abuf
+        M = LinearModel(fwd, adj, range_geometry=Continuous1D(c.m), domain_geometry=c.geom)
     else:
         M = LinearModel(lambda x: A @ x, lambda y: A.T @ y, range_geometry=Continuous1D(c.m), domain_geometry=c.geom)
     x = Gaussian(mean, geometry=(c.geom if c.geom is not None else c.npar), **pk)
@@ -374,12 +414,15 @@ def run(ctx):
     ctx.assumptions += ["inputs are small integers / dyadic rationals; well-conditioned SPD covariances",
                         "sqrtcov matrices are generated symmetric (R^T R = R R^T), so the C04 finding on the sqrtcov convention does not interfere",
                         "dense arrays only (sparse covariance inputs are not generated)"]
+    RETAINED.clear()
     run_direct(ctx, cuqi, rs, thorough)
     run_routes(ctx, cuqi, rs, thorough)
     run_opt(ctx, cuqi, rs, thorough)
     run_ml_full(ctx, cuqi, rs, thorough)
     run_starts(ctx, cuqi, rs, thorough)
     run_opt_scale(ctx, cuqi, rs, thorough)
+    run_histories(ctx, cuqi, rs, thorough)
+    check_retained(ctx)
 
 
 CORPUS = [
@@ -409,6 +452,21 @@ CORPUS = [
 ]
 
 
+RETAINED = []   # G8: every returned estimate / sample array, with a private copy taken at return time
+
+
+def check_retained(ctx):
+    for key, desc, obj, copy0 in RETAINED:
+        now = np.asarray(obj, dtype=float)
+        if now.shape != copy0.shape and now.ravel().shape == copy0.ravel().shape:
+            now = now.reshape(copy0.shape)
+        if now.shape != copy0.shape or not np.array_equal(now, copy0):
+            ctx.fail(key + ":retained-output-changed", desc, "a returned estimate/sample array keeps its values " + str(copy0.tolist())[:200], str(now.tolist())[:200],
+                     "an array returned earlier was overwritten by a later call")
+    ctx.extra_cov["retained_outputs_checked"] = len(RETAINED)
+    RETAINED.clear()
+
+
 def run_direct(ctx, cuqi, rs, thorough):
     ncases = 3000 if thorough else 260
     cases = [gen_lg_case(cuqi, rs, thorough, f) for f in CORPUS]
@@ -424,6 +482,14 @@ def run_direct(ctx, cuqi, rs, thorough):
         if k % 4 == 3:
             f["neardiag"] = True
         f["n"] = int(rs.randint(2, 5)); f["m"] = f["n"] + int(rs.randint(0, 3))
+        cases.append(gen_lg_case(cuqi, rs, thorough, f))
+    # G4 on the operator: A, data and noise std on the scale 1e-15 .. 1e12 (matrix- and function-backed, all geometries)
+    opscales = [1e-15, 2.5e-13, 4e-12, 1e-9, 1e-6, 1e-3, 1e3, 1e6, 1e9, 1e12]
+    for k in range(len(opscales) * (6 if thorough else 3)):
+        f = dict(opscale=opscales[k % len(opscales)], mean="vector", backing=["fn", "mb", "fn"][k % 3],
+                 geom=["Continuous1D", "Discrete", "KL-full", "Step-full", "Step-trunc", "scaled"][(k // 2) % 6],
+                 prior_param="cov", lik_param=["cov", "cov", "sqrtprec"][k % 3], compute_cov=True)
+        f["n"] = int(rs.randint(3, 6)); f["m"] = f["n"] + int(rs.randint(0, 3))
         cases.append(gen_lg_case(cuqi, rs, thorough, f))
     # ---- model side, pass 1: get_matrix and the parameter-to-parameter matrix
     lines = []
@@ -504,7 +570,8 @@ def direct_case(ctx, cuqi, c, rs, hist):
     try:
         with quiet():
             xm = BP.MAP(disp=False)
-        impl = ("ok", np.asarray(xm, dtype=float).ravel(), xm)
+        impl = ("ok", np.asarray(xm, dtype=float).ravel().copy(), xm)
+        RETAINED.append((key, desc, xm, impl[1].copy()))
     except Exception as e:
         impl = ("err", exc_name(e), str(e)[:100])
     mk, mv = parse_arr(c.map_model)
@@ -638,6 +705,18 @@ def generic_case(ctx, cuqi, c, BP, desc, key, impl, rmean, rs, snap0, objs0, his
                          "MAP with integer-typed matrix / data / mean / covariance differs from the float64 problem")
         except Exception as e:
             hist["int_inputs_raise:" + exc_name(e)] = hist.get("int_inputs_raise:" + exc_name(e), 0) + 1
+    # G7: other memory layouts / read-only arrays; optional arguments passed positionally
+    if impl[0] == "ok" and c.case_index % 3 == 1:
+        ctx.case("lg-layout", desc)
+        try:
+            with quiet():
+                BPl = build_lg(cuqi, c, layout=True)
+                xl = np.asarray(BPl.MAP(False, None), dtype=float).ravel()
+            if not vclose(xl, impl[1], TOL):
+                ctx.fail(key + ":layout", desc, "the estimate for the C-contiguous writable version of the same numbers " + str(impl[1].tolist()), xl.tolist(),
+                         "MAP with Fortran-ordered / strided / read-only inputs (arguments passed positionally) differs")
+        except Exception as e:
+            hist["layout_raise:" + exc_name(e)] = hist.get("layout_raise:" + exc_name(e), 0) + 1
 
 
 def oracle_point(ctx, key, desc, density, x, ref, rs, info=None, tol_point=1e-7, tol_logd=1e-9, grad_tol=1e-6, what="MAP"):
@@ -730,7 +809,8 @@ def sample_case(ctx, cuqi, c, BP, desc, rmean, rcov, rs, hist):
             ctx.disagree(key, desc, c.centre_model[:200], f"raises {impl[1]}: {impl[2]}", "sample_posterior: model centre vs implementation exception")
         return
     hist["sample_ok"] += 1
-    X = impl[1]
+    X = impl[1].copy()
+    RETAINED.append((key, desc, S.samples, X.copy()))
     if any(a != (n,) for a in calls) or len(calls) != len(script):
         ctx.disagree(key + ":stream", desc, f"{len(script)} calls randn({n})", str(calls)[:100], "random stream consumption differs")
     centre = X[:, 0]
@@ -1264,3 +1344,156 @@ def run_opt_scale(ctx, cuqi, rs, thorough):
                     ctx.note(f"{key} raises {exc_name(e)} at scale {sc}"); continue
                 oracle_point(ctx, key, {**desc, "returned": xv.tolist()}, BPn.posterior if which == "MAP" else BPn.likelihood, xv, None, rs,
                              tol_point=2e-3, tol_logd=1e-7, grad_tol=1e-5, what=which)
+
+
+# ----------------------------------------------------------------------------------------------- G5: setter histories on the Gaussians
+def spec_token(spec):
+    """driver token of the raw value assigned through a setter (force_ndarray semantics)"""
+    if spec.shape == "scalar":
+        return "m:" + sq(F(spec.value))
+    if spec.shape == "vector":
+        return "v:" + sv([F(x) for x in spec.value])
+    return "m:" + sm(fmat(spec.value))
+
+
+def run_histories(ctx, cuqi, rs, thorough):
+    """one Gaussian object (prior or noise), specified by cov / prec / sqrtcov / sqrtprec, goes through a history of
+    `compute_cov()` calls and re-assignments of its main matrix (scalar, vector, matrix values); then MAP() and
+    sample_posterior() must be those of the CURRENT problem or refuse.  Model: `CovState.run` (theorem cov_never_stale)."""
+    from cuqi.distribution import Gaussian
+    from cuqi.model import LinearModel
+    from cuqi.problem import BayesianProblem
+    nprob = 480 if thorough else 64
+    params = ["prec", "cov", "sqrtcov", "sqrtprec"]
+    hists = [["cc", "set"], ["cc", "set", "cc"], ["set"], ["set", "cc"], ["cc", "set", "set"], ["cc", "set", "cc", "set"], ["replace"], ["cc", "set", "replace-same"]]
+    probs, lines = [], []
+    for k in range(nprob):
+        side = "prior" if k % 2 == 0 else "lik"
+        param = params[(k // 2) % 4]
+        hist_ops = hists[(k // 8) % len(hists)]
+        n = int(rs.randint(1, 5)); m = n + int(rs.randint(0, 3))
+        A = rs.randint(-3, 4, size=(m, n)).astype(float)
+        mean = rs.randint(-2, 3, size=n).astype(float); b = rs.randint(-4, 5, size=m).astype(float)
+        d = n if side == "prior" else m
+        specs = [gen_spec(rs, d, param)]
+        other = gen_spec(rs, m if side == "prior" else n, "cov", ["scalar", "matrix"][k % 2])
+        ops = []
+        for o in hist_ops:
+            if o in ("set", "replace"):
+                specs.append(gen_spec(rs, d, param))
+                ops.append((o, specs[-1]))
+            elif o == "replace-same":
+                ops.append((o, specs[-1]))
+            else:
+                ops.append((o, specs[-1]))
+        cur = specs[-1]
+        # model: state of `_cov` after the history
+        init = spec_token(specs[0]) if param == "cov" else "none"
+        toks = []
+        for o, sp in ops:
+            if o == "cc":
+                toks.append("cc:m:" + sm(sp.cov))
+            elif o == "set":
+                toks.append("set:" + spec_token(sp))
+        if any(o.startswith("replace") for o, _ in ops):   # a new object: its own initial state
+            init = spec_token(cur) if param == "cov" else "none"; toks = []
+        probs.append(dict(side=side, param=param, ops=ops, A=A, mean=mean, b=b, n=n, m=m, first=specs[0], cur=cur, other=other, k=k))
+        lines.append(f"covstate {int(param == 'cov')} {init} " + " ".join(toks))
+        We = cur.prec if side == "lik" else other.prec
+        Wx = cur.prec if side == "prior" else other.prec
+        lines.append(f"ref {qm(A)} {sm(We)} {sm(Wx)} {qv(mean)} {qv(b)}")
+    outs = ctx.lean.drive(lines)
+    lines2 = []
+    for i, pr in enumerate(probs):
+        attr = outs[2 * i]; pr["ref"] = outs[2 * i + 1]
+        oattr = pr["other"].cov_attr(False)
+        ce, cx = (oattr, attr) if pr["side"] == "prior" else (attr, oattr)
+        args = f"m:{qm(pr['A'])} {pr['m']} {pr['n']} {ce} {cx} v:{qv(pr['mean'])} v:{qv(pr['b'])}"
+        lines2 += ["map " + args, "centre " + args]
+    outs2 = ctx.lean.drive(lines2)
+    hist = {}
+    for i, pr in enumerate(probs):
+        mmod, cmod = outs2[2 * i], outs2[2 * i + 1]
+        opnames = "-".join(o for o, _ in pr["ops"])
+        key = f"MAP:history:{pr['side']}:{pr['param']}:{opnames}:{pr['cur'].shape}"
+        desc = {"side": pr["side"], "param": pr["param"], "history": [(o, sp.shape, sp.value) for o, sp in pr["ops"]], "initial": [pr["first"].shape, pr["first"].value],
+                "other": [pr["other"].param, pr["other"].shape, pr["other"].value], "A": pr["A"].tolist(), "mean": pr["mean"].tolist(), "b": pr["b"].tolist()}
+        ctx.case("history-" + pr["side"] + "-" + pr["param"], desc)
+        try:
+            with quiet():
+                M = LinearModel(pr["A"])
+                if pr["side"] == "prior":
+                    x = Gaussian(pr["mean"], **pr["first"].kwargs()); y = Gaussian(M(x), **pr["other"].kwargs())
+                else:
+                    x = Gaussian(pr["mean"], **pr["other"].kwargs()); y = Gaussian(M(x), **pr["first"].kwargs())
+                BP = BayesianProblem(y, x).set_data(y=pr["b"])
+                for o, sp in pr["ops"]:
+                    g = BP.prior if pr["side"] == "prior" else BP.likelihood.distribution
+                    if o == "cc":
+                        g.compute_cov()
+                    elif o == "set":
+                        setattr(g, pr["param"], list(sp.kwargs().values())[0])
+                    else:   # replace the whole Gaussian through the problem's setter
+                        if pr["side"] == "prior":
+                            BP.prior = Gaussian(pr["mean"], **sp.kwargs())
+                        else:
+                            BP.likelihood = Gaussian(M(x), name="y", **sp.kwargs()).to_likelihood(pr["b"])
+        except Exception as e:
+            hist["history_raises:" + exc_name(e)] = hist.get("history_raises:" + exc_name(e), 0) + 1
+            ctx.note(f"history construction raises {exc_name(e)}: {str(e)[:90]} at {key}")
+            continue
+        if not pr["ref"].startswith("mean="):
+            continue
+        rmean = np.array([float(v) for v in pv(pr["ref"].split(" ")[0][5:])])
+        rcov = np.array([[float(v) for v in r] for r in pm(pr["ref"].split(" ")[1][4:])])
+        # MAP
+        try:
+            with quiet():
+                xm = BP.MAP(disp=False)
+            impl = ("ok", np.asarray(xm, dtype=float).ravel())
+        except Exception as e:
+            impl = ("err", exc_name(e))
+        mk, mv = parse_arr(mmod)
+        if mk == "err" and mv == "LinAlgError:singular":
+            mv = "LinAlgError"
+        hist[f"{impl[0]}:{impl[1] if impl[0] == 'err' else ''}"] = hist.get(f"{impl[0]}:{impl[1] if impl[0] == 'err' else ''}", 0) + 1
+        if impl[0] == "err":
+            if mk != "err" or mv != impl[1]:
+                ctx.disagree(key, desc, mmod[:200], "raises " + impl[1], "MAP after the history: model value vs implementation exception")
+        else:
+            mvv = None if mk == "err" else np.atleast_1d(np.asarray(mv, dtype=float)).ravel()
+            if mk == "err" or mvv.shape != impl[1].shape or not vclose(impl[1], mvv, TOL):
+                ctx.disagree(key, desc, mmod[:200], impl[1].tolist(), "MAP after the history: model vs implementation")
+            oracle_point(ctx, key, desc, BP.posterior, impl[1], rmean, rs, what="MAP after " + opnames)
+        # direct sampler
+        skey = key.replace("MAP:", "sample:", 1)
+        n = pr["n"]
+        script = [np.zeros(n)] + [np.eye(n)[:, j].copy() for j in range(n)]
+        calls = []
+        orig = np.random.randn
+        np.random.randn = lambda *a: (calls.append(a), script[len(calls) - 1].copy())[1]
+        try:
+            try:
+                with quiet():
+                    S = BP.sample_posterior(len(script))
+                si = ("ok", np.asarray(S.samples, dtype=float).copy())
+            except Exception as e:
+                si = ("err", exc_name(e))
+        finally:
+            np.random.randn = orig
+        ck, cv = parse_arr(cmod)
+        if ck == "err" and cv == "LinAlgError:singular":
+            cv = "LinAlgError"
+        ctx.case("history-sample", desc)
+        if si[0] == "err":
+            if ck != "err" or cv != si[1]:
+                ctx.disagree(skey, desc, cmod[:200], "raises " + si[1], "sample_posterior after the history: model vs implementation exception")
+            continue
+        X = si[1]; centre = X[:, 0]; L = X[:, 1:n + 1] - centre[:, None]
+        if ck == "err" or not vclose(centre, np.atleast_1d(np.asarray(cv, dtype=float)).ravel(), TOL):
+            ctx.disagree(skey, desc, cmod[:200], centre.tolist(), "centre of the direct draws after the history: model vs implementation")
+        if not vclose(centre, rmean, 1e-7):
+            ctx.fail(skey, desc, "offset of the draws = current posterior mean " + str(rmean.tolist()), centre.tolist(), "direct draws after the history are not centred on the current posterior mean")
+        elif not mclose(L @ L.T, rcov, 1e-7):
+            ctx.fail(skey, desc, "L L^T = current posterior covariance", (L @ L.T).tolist(), "direct draws after the history do not have the current posterior covariance")
+    ctx.extra_cov["history_histogram"] = hist
